@@ -99,13 +99,14 @@ RStart ==
   /\ UNCHANGED <<hc, nch, evq, snap, cs, ps, last, g, gs, hi, pushed, dc, resp, closed>>
 
 \* loop body of sendPushes for c: skip if the entry is gone or it already has this seq; else take a
-\* semaphore slot (blocks while MaxConc goroutines run) and start the goroutine
+\* semaphore slot (blocks while MaxConc goroutines run) and start the goroutine.  On a connection the swarm has
+\* already closed NewStream fails at once: that goroutine is over before anything else can happen (dead)
 Pick(c) ==
   /\ run /\ c \in todo
   /\ LET go == Ent(c) /\ last[c] < snap.seq IN
      /\ (go => Cardinality(Busy) < MaxConc)
-     /\ g' = IF go THEN [g EXCEPT ![c] = "open"] ELSE g
-     /\ op' = [name |-> "pick", c |-> c, go |-> go, ps |-> ps[c], ent |-> Ent(c)]
+     /\ g' = IF go /\ cs[c] = "up" THEN [g EXCEPT ![c] = "open"] ELSE g
+     /\ op' = [name |-> "pick", c |-> c, go |-> go, ps |-> ps[c], ent |-> Ent(c), dead |-> go /\ cs[c] # "up"]
   /\ todo' = todo \ {c}
   /\ UNCHANGED <<hc, nch, evq, snap, trig, run, cs, ps, last, gs, hi, pushed, dc, resp, closed>>
 
